@@ -598,3 +598,129 @@ theorem selected_blank (now liveness : Int) (sv : FilterSpec.Server) :
     exact decide_eq_true_iff
 
 end Swat4.C01
+
+/-! ## non-vacuity of the end-to-end theorems: a concrete registry, request and decoded reply
+
+Four stored servers — one dead (refreshed before `now − liveness`), one live with no players (fails the filter),
+one live with three players refreshed exactly at `now − liveness` (matches; the bound is inclusive), one live
+with players but without the `master` status — and the request `\hostname\ping\numplayers` with the filter
+`numplayers>0`.  Everything below is evaluated by the kernel (`decide`), except the cipher: the 256-round key
+schedule is too slow for kernel evaluation, so the decoded reply is computed on the plaintext `packServers`
+produces (`plaintext_decodes`) and transferred to the encrypted reply by `browser_end_to_end` (`reply_decodes`). -/
+namespace Swat4.C01.E2EExample
+open Swat4 Swat4.Browsing Swat4.SBList Swat4.BrowserE2E
+
+/-- a record of the `details.Info` shape: the given host name and player count, every other field zero -/
+def info (host : String) (numplayers : Int) : Swat4.Info :=
+  Facts.infoSchema.map fun e =>
+    (e.1, if e.1 = Bytes.ofAscii "hostname" then Value.str (Bytes.ofAscii host)
+          else if e.1 = Bytes.ofAscii "numplayers" then Value.int numplayers
+          else match e.2 with
+            | 0 => Value.int 0
+            | 1 => Value.bool false
+            | _ => Value.str [])
+
+def dead : Stored := ⟨⟨"1.1.1.1:10480", 6, .at 800, info "dead" 5⟩, ⟨1, 1, 1, 1⟩, 10480, 10481⟩
+def empty : Stored := ⟨⟨"1.1.1.2:10480", 6, .at 950, info "empty" 0⟩, ⟨1, 1, 1, 2⟩, 10480, 10481⟩
+def busy : Stored := ⟨⟨"1.1.1.3:10480", 6, .at 900, info "busy" 3⟩, ⟨1, 1, 1, 3⟩, 10480, 75017⟩
+def unlisted : Stored := ⟨⟨"1.1.1.4:10480", 4, .at 990, info "unlisted" 7⟩, ⟨1, 1, 1, 4⟩, 10480, 10481⟩
+
+def registry : List Stored := [dead, empty, busy, unlisted]
+
+def req : ListRequest :=
+  { header := [0, 1, 3, 0, 0, 0, 0], gameName := Bytes.ofAscii "swat4", queryGame := Bytes.ofAscii "swat4", challenge := #v[1, 2, 3, 4, 5, 6, 0, 0xff], filter := Bytes.ofAscii "numplayers>0", rawFields := [Bytes.ofAscii "hostname", Bytes.ofAscii "ping", Bytes.ofAscii "numplayers"], withFields := false }
+
+def client : Client := ⟨⟨10, 0, 0, 9⟩, 70000⟩
+
+/-- what the client must see: its own address (port mod 65536), the two known fields, the one matching server
+with its query port mod 65536 and its stored host name and player count -/
+def seen : ServerList :=
+  { clientIp := [10, 0, 0, 9], clientPort := 4464, fields := [Bytes.ofAscii "hostname", Bytes.ofAscii "numplayers"],
+    entries := [{ ip := [1, 1, 1, 3], port := 9481, values := [Bytes.ofAscii "busy", Bytes.ofAscii "3"] }], trailing := [] }
+
+theorem req_wf : WfReq req := ⟨by decide, by decide, by decide, by decide, by decide, by decide⟩
+theorem req_fits : (encodeReq req).length ≤ readBufferSize := by decide
+theorem req_known : knownFields Cfg.facts.isQueryField req = [Bytes.ofAscii "hostname", Bytes.ofAscii "numplayers"] := by decide
+
+/-- the filter string parses to the one clause `numplayers > 0` -/
+example : clausesOf req.filter = [⟨Bytes.ofAscii "numplayers", .gt, .int 0⟩] := by decide
+
+/-- every stored record has the struct's shape and no server has the end-marker address (hypothesis `hrec`) -/
+theorem registry_ok : ∀ s ∈ registry, matching 1000 100 req.filter s = true →
+    Shaped Facts.infoSchema s.row.info ∧ s.ip.toBytes ≠ lastServerMarker := by decide
+
+/-- C03's predicate on the four servers: dead, not matching, matching, not `master` -/
+example : registry.map (matching 1000 100 req.filter) = [false, false, true, false] := by decide
+
+/-- the selection, computed by the model's own `Filter.listServers` -/
+example : (Filter.listServers (registry.map (·.row)) 1000 100 Facts.statusMaster (Filter.browserQuery req.filter)).map (·.addr) =
+    ["1.1.1.3:10480"] := by decide
+
+/-- the promised list for this registry and request is `seen` -/
+theorem expected_eq : expectedList Schema.facts client (knownFields Cfg.facts.isQueryField req)
+    ((registry.filter (matching 1000 100 req.filter)).map toSel) = seen := by decide
+
+/-- the model itself, up to the cipher: the plaintext `packServers` produces for the handler's own listing
+decodes (SDK framing) to `seen` — computed, not derived from the theorems -/
+theorem plaintext_decodes :
+    sdkDecode (packServers Schema.facts client [Bytes.ofAscii "hostname", Bytes.ofAscii "numplayers"]
+      ((listStored id registry 1000 100 Facts.statusMaster (Filter.browserQuery req.filter)).map toSel)) 0 = some seen := by
+  decide
+
+/-- `browser_end_to_end` on the concrete instance: for every 23 header draws the handler replies to the bytes of
+`req`, and the stock client decodes the reply to `seen` -/
+theorem reply_decodes (rnd : Crypt.Rnd) :
+    ∃ reply, browserHandle id registry 1000 100 client rnd (encodeReq req) = .ok reply ∧
+      clientDecode req.challenge reply 0 = some seen := by
+  have h := browser_end_to_end req req_wf req_fits (by rw [req_known]; decide) registry 1000 100 client rnd 0 registry_ok
+  rw [expected_eq] at h
+  exact h
+
+/-- the matching servers have pairwise distinct entries (hypothesis of the "exactly once" clause of
+`browser_lists_all_matching`) -/
+example : ((registry.filter (matching 1000 100 req.filter)).map
+    (entryOf (knownFields Cfg.facts.isQueryField req))).Nodup := by decide
+
+/-- a request whose filter string does not parse (`numplayers>`: nothing after the operator) -/
+def reqBad : ListRequest := { req with filter := Bytes.ofAscii "numplayers>" }
+
+theorem reqBad_wf : WfReq reqBad := ⟨by decide, by decide, by decide, by decide, by decide, by decide⟩
+theorem reqBad_rejected : Filter.newFromString reqBad.filter = .error .format := rfl
+
+/-- the two live `master` servers — with and without players — in registry order -/
+def seenAll : ServerList :=
+  { seen with entries := [{ ip := [1, 1, 1, 2], port := 10481, values := [Bytes.ofAscii "empty", Bytes.ofAscii "0"] },
+                          { ip := [1, 1, 1, 3], port := 9481, values := [Bytes.ofAscii "busy", Bytes.ofAscii "3"] }] }
+
+/-- `browser_malformed_filter_lists_all_live` on the concrete instance (registry order): the reply lists both
+live `master` servers -/
+theorem reply_decodes_malformed (rnd : Crypt.Rnd) :
+    ∃ reply, browserHandle id registry 1000 100 client rnd (encodeReq reqBad) = .ok reply ∧
+      clientDecode reqBad.challenge reply 0 = some seenAll := by
+  have hk : knownFields Cfg.facts.isQueryField reqBad = [Bytes.ofAscii "hostname", Bytes.ofAscii "numplayers"] := by decide
+  have h := browser_end_to_end reqBad reqBad_wf (by decide) (by rw [hk]; decide) registry 1000 100 client rnd 0 (by decide)
+  have e : expectedList Schema.facts client (knownFields Cfg.facts.isQueryField reqBad)
+      ((registry.filter (matching 1000 100 reqBad.filter)).map toSel) = seenAll := by decide
+  rw [e] at h
+  exact h
+
+/-- `browser_malformed_filter_lists_all_live` applies to `reqBad` (its hypothesis `hbad` is `reqBad_rejected`), here
+with the repository returning its result reversed (an `order` other than the registry's) -/
+example (rnd : Crypt.Rnd) :
+    ∃ (reply : Bytes) (listing : List Stored), browserHandle List.reverse registry 1000 100 client rnd (encodeReq reqBad) = .ok reply ∧
+      listing.Perm [empty, busy] ∧
+      clientDecode reqBad.challenge reply 0 =
+        some (expectedList Schema.facts client [Bytes.ofAscii "hostname", Bytes.ofAscii "numplayers"] (listing.map toSel)) := by
+  have hk : knownFields Cfg.facts.isQueryField reqBad = [Bytes.ofAscii "hostname", Bytes.ofAscii "numplayers"] := by decide
+  have h := browser_malformed_filter_lists_all_live List.reverse (fun l => List.reverse_perm l) reqBad reqBad_wf (by decide)
+    (by rw [hk]; decide) .format reqBad_rejected registry 1000 100 client rnd 0 (by decide)
+  have e : (registry.filter fun s =>
+      FilterSpec.selected 1000 100 Facts.statusMaster [] (FilterSpec.toServer s.row)) = [empty, busy] := by rfl
+  rw [e, hk] at h
+  exact h
+
+/-- with that order the model's own listing is `[busy, empty]` — not the registry's order, a permutation of it -/
+example : (listStored List.reverse registry 1000 100 Facts.statusMaster (Filter.browserQuery reqBad.filter)).map (·.row.addr) =
+    ["1.1.1.3:10480", "1.1.1.2:10480"] := by decide
+
+end Swat4.C01.E2EExample
